@@ -16,6 +16,7 @@ class KPath:
         self.absent = set()
         self.disc = {}  # discriminator variable name -> const (== true)
         self.disc_not = {}  # name -> set of consts known unequal
+        self.disc_in = {}  # name -> set of consts the variable is known to be among
         self.wildcard = False  # generic __dict__ export/import
         self.dynamic = False
         self.var_from_attr = {}  # local var -> attr key it was read from / written to
@@ -31,6 +32,7 @@ class KPath:
         p.absent = set(self.absent)
         p.disc = dict(self.disc)
         p.disc_not = {k: set(v) for k, v in self.disc_not.items()}
+        p.disc_in = {k: set(v) for k, v in self.disc_in.items()}
         p.wildcard = self.wildcard
         p.dynamic = self.dynamic
         p.var_from_attr = dict(self.var_from_attr)
@@ -196,6 +198,8 @@ class Extractor:
                     q.disc.update(sp.disc)
                     for k, v in sp.disc_not.items():
                         q.disc_not.setdefault(k, set()).update(v)
+                    for k, v in sp.disc_in.items():
+                        q.disc_in[k] = (q.disc_in[k] & set(v)) if k in q.disc_in else set(v)
                     q.wildcard = q.wildcard or sp.wildcard
                     q.dynamic = q.dynamic or sp.dynamic
                     q.var_from_attr.update(sp.var_from_attr)
@@ -220,12 +224,26 @@ class Extractor:
                     a.present.add((kind, l.value))
                     b.absent.add((kind, l.value))
                     return True, True
+            if isinstance(op, (ast.In, ast.NotIn)) and isinstance(l, ast.Name) and isinstance(
+                    r, (ast.Tuple, ast.List, ast.Set)) and r.elts and all(
+                        isinstance(e, ast.Constant) for e in r.elts):
+                # `var in ('a', 'b')`: one of several values of a discriminator
+                vals = {e.value for e in r.elts}
+                a, b = (pt, pf) if isinstance(op, ast.In) else (pf, pt)
+                fa = not ((l.id in a.disc and a.disc[l.id] not in vals) or
+                          vals <= a.disc_not.get(l.id, set()) or
+                          (l.id in a.disc_in and not (a.disc_in[l.id] & vals)))
+                fb = not (b.disc.get(l.id, _NONE) in vals)
+                a.disc_in[l.id] = (a.disc_in[l.id] & vals) if l.id in a.disc_in else set(vals)
+                b.disc_not.setdefault(l.id, set()).update(vals)
+                return (fa, fb) if isinstance(op, ast.In) else (fb, fa)
             if isinstance(op, (ast.Eq, ast.NotEq)) and isinstance(l, ast.Name) and isinstance(
                     r, ast.Constant):
                 a, b = (pt, pf) if isinstance(op, ast.Eq) else (pf, pt)
                 # feasibility against what the path already knows about this discriminator
                 fa = not ((l.id in a.disc and a.disc[l.id] != r.value) or
-                          r.value in a.disc_not.get(l.id, ()))
+                          r.value in a.disc_not.get(l.id, ()) or
+                          (l.id in a.disc_in and r.value not in a.disc_in[l.id]))
                 fb = not (b.disc.get(l.id, _NONE) == r.value)
                 a.disc[l.id] = r.value
                 b.disc_not.setdefault(l.id, set()).add(r.value)
@@ -326,8 +344,26 @@ def disc_not_by_attr(p):
     return out
 
 
+def disc_in_by_attr(p):
+    out = {}
+    for var, consts in p.disc_in.items():
+        if var in p.var_from_attr:
+            out[p.var_from_attr[var]] = consts
+    return out
+
+
 def compatible(wp, rp):
     dw, dr = disc_by_attr(wp), disc_by_attr(rp)
+    iw, ir = disc_in_by_attr(wp), disc_in_by_attr(rp)
+    for k, v in dr.items():
+        if k in iw and v not in iw[k]:
+            return False
+    for k, v in dw.items():
+        if k in ir and v not in ir[k]:
+            return False
+    for k in set(iw) & set(ir):
+        if not (iw[k] & ir[k]):
+            return False
     for k in set(dw) & set(dr):
         if dw[k] != dr[k]:
             return False
